@@ -916,11 +916,12 @@ def modular_call(ev: Ev, fs: source.FuncSrc, c: Contract, args: list[Val], kwarg
 			ev.st.env[recv_name] = ev.eng.fresh(env[sp].ty, f'{recv_name}_after_raise')
 
 	for exc, cond in c.raises.items():
+		hook = None if exc in c.raise_unchanged else havoc_on_exit
 		if cond is None:
 			b = z3.Const(fresh_name(f'may_{exc.replace(".", "_")}'), z3.BoolSort())
-			ev.exit_if(b, exc, havoc_on_exit)
+			ev.exit_if(b, exc, hook)
 		else:
-			ev.exit_if(sub.truth(ast.parse(cond, mode='eval').body), exc, havoc_on_exit)
+			ev.exit_if(sub.truth(ast.parse(cond, mode='eval').body), exc, hook)
 	# normal return: havoc what `modifies` allows, assume the postcondition
 	post_env = dict(env)
 	new_self: Val | None = None
